@@ -1,6 +1,6 @@
 (* C04 — each operator application is emitted once, in the innermost enclosing scope.  Property theorems only. *)
 From Coq Require Import List String NArith Arith Bool.
-From Spox Require Import Base IR Show Build Sem Plan Validate BuildFacts SemFacts DfsFacts.
+From Spox Require Import Base IR Show Build Sem Plan Validate BuildFacts SemFacts DfsFacts ScopeFacts EmitFacts.
 Import ListNotations.
 
 (* The source nodes of all emitted nodes (all nested graphs) are duplicate-free and are exactly the non-argument nodes on which
@@ -56,3 +56,29 @@ Theorem C04_postorder_spec :
   let post := postorder fuel adj src in NoDup post /\ closed nref adj post /\ In src post.
 Proof. exact postorder_spec. Qed.
 Print Assumptions C04_postorder_spec.
+
+(* Emission (no validator involved).  Whatever compile returns for scope g — any fuel, nesting depth, mix of operators,
+   functions, inlined models — the top level of its GraphProto holds exactly the non-argument nodes that the scope resolution
+   assigned to g (own_of g), once each, in the builder's topological order ... *)
+Theorem C04_graph_holds_exactly_its_own_nodes :
+  forall p un args_of own_of fbuild fuel s g prefix is_main ai ms ro s' rq fs,
+    compile p un args_of own_of fbuild fuel s g prefix is_main = inl (MGraph ai ms ro, s', rq, fs) ->
+    map src_of ms = filter (fun u => negb (is_arg p u)) (own_of g).
+Proof. exact compile_top_srcs. Qed.
+Print Assumptions C04_graph_holds_exactly_its_own_nodes.
+
+(* ... the whole tree of GraphProtos is the unfolding [spec_srcs] of the ownership map along the subgraph attributes ... *)
+Theorem C04_emitted_tree_is_ownership_unfolded :
+  forall p un args_of own_of fbuild fuel s g prefix is_main mg s' rq fs,
+    compile p un args_of own_of fbuild fuel s g prefix is_main = inl (mg, s', rq, fs) ->
+    srcs_graph mg = spec_srcs p own_of fuel g.
+Proof. exact compile_srcs. Qed.
+Print Assumptions C04_emitted_tree_is_ownership_unfolded.
+
+(* ... and for build_main: if the traversal order has no duplicates (true on acyclic programs by C04_postorder_spec) and no graph
+   occurs twice in the graph tree, every node is emitted at most once in the whole model. *)
+Theorem C04_build_main_emits_at_most_once :
+  forall ffuel p un main b,
+    build_main ffuel p un main = inl b -> emission_premises_b p main = true -> NoDup (srcs_graph (b_graph b)).
+Proof. exact build_main_emitted_at_most_once. Qed.
+Print Assumptions C04_build_main_emits_at_most_once.
